@@ -102,6 +102,9 @@ def r03_7(ctx):
 def run(ctx):
     ctx.rule("R03.7", "buffered table text is foster-parented iff some pending character token contains a non-whitespace character (independent of the split)")
     ctx.guard("R03.7", "table-text", lambda: r03_7(ctx))
+    ctx.rule("R03.9", "every insertion mode that treats whitespace specially splits an unsplit character token first: the tree does not depend on where the tokenizer cut the text")
+    from .C08 import split_before_whitespace_decision
+    ctx.guard("R03.9", "split", lambda: split_before_whitespace_decision(ctx, "R03.9"))
     ctx.rule("R03.1", "on every path to 'need more input' nothing but input acquisition and pure queries has happened in this iteration")
     ctx.rule("R03.2", "temp_buf is empty at the entry of every state whose arm starts with eat() (forward dataflow over the transition table); an eat() that needs more input stashes the whole queue, in order")
     ctx.rule("R03.3", "ignore_lf is cleared only by get_preprocessed_char, after raw text was pushed back, or after peek() returned Some")
